@@ -277,7 +277,8 @@ def _probe(script, line, col, oracle, pre, cur, exp_params, exp_bracket):
 
 
 CHEAP = ('fn', 'meth', 'umeth', 'sm', 'init')   # carriers whose fresh analysis costs ~3 ms
-BATCH = 150      # call lines per module in the `complete` variant
+BATCH = 60       # call lines per module in the `complete` variant (jedi gives up on a context
+                 # after 300 inferences in one analysis; `c.m(` costs two or three per line)
 
 
 def _work_index(task):
@@ -324,7 +325,6 @@ def _work_index(task):
     texts = list(M.call_texts(forms, kmax))
 
     def module_of(li):
-        # jedi gives up on a name after 300 inferences in one analysis (a documented limit, C15):
         # at most BATCH call lines share a module.  -> (module text, line of call li in it)
         lo = li - li % BATCH
         return (code + ''.join('%s(%s)\n' % (callee, args) for args, _p, _k in texts[lo:lo + BATCH]),
